@@ -6,6 +6,8 @@ From Coq Require Import List Arith Bool ZArith NArith Sorted.
 From Coq Require String.
 Import ListNotations.
 Require Import Model.C17_TagCodec Proofs.C17_TagCodecProofs Gen.C17Gen Dyn.C17_Tie Dyn.C17_TieDecode.
+(* second-order classes: qualified names only (the list vocabulary of C18_Surgery overlaps with C17_TagCodec) *)
+Require Model.C18_Surgery Model.C17_HighOrder Proofs.C17_HighOrderProofs Gen.C17GenHO Dyn.C17_TieHO.
 
 (* bitmask_roundtrip: for EVERY set S of distinct slot numbers, bit r of sum_{s in S} 2^s is set iff r is in S *)
 Theorem C17_bitmask_roundtrip :
@@ -135,14 +137,70 @@ Proof.
 Qed.
 Print Assumptions C17_instance.
 
+(* high-order node reordering of Mesh.__post_init__ (any external node numbering): (1) every vertex slot keeps its
+   coordinates provided the numbers of the higher-order nodes do not collide with vertex numbers; (2) node number idx[k]
+   receives the coordinates of external node src[k] provided slots sharing a node number carry equal coordinates *)
+Theorem C17_postinit_keeps_coordinates :
+  forall (P : Type) (zero : P) (M ncols : nat) (p : list P) (t edofs_hi : C18_Surgery.mat nat),
+    (forall r e,
+       Forall (fun k => length (C17_HighOrder.hi_uniq M t) <= k) (C17_HighOrder.flattenF ncols edofs_hi) ->
+       r < length (firstn M t) -> e < length (nth r (firstn M t) []) ->
+       nth (nth e (nth r (C17GenHO.gen_hi_t M t) []) 0) (C17GenHO.gen_hi_doflocs zero M ncols p t edofs_hi) zero
+       = nth (nth e (nth r (firstn M t) []) 0) p zero) /\
+    (forall k,
+       let idx := C17_HighOrder.flattenF ncols edofs_hi in
+       let src := C17_HighOrder.flattenF ncols (skipn M t) in
+       length src = length idx -> k < length idx -> nth k idx 0 < length (C17_HighOrder.hi_doflocs0 zero M p t) ->
+       (forall k', k' < length idx -> nth k' idx 0 = nth k idx 0 ->
+                   nth (nth k' src 0) p zero = nth (nth k src 0) p zero) ->
+       nth (nth k idx 0) (C17GenHO.gen_hi_doflocs zero M ncols p t edofs_hi) zero = nth (nth k src 0) p zero).
+Proof.
+  intros P zero M ncols p t edofs_hi. split.
+  - intros r e. exact (C17_HighOrderProofs.postinit_vertices zero M ncols p t edofs_hi r e).
+  - intros k. exact (C17_HighOrderProofs.postinit_high zero M ncols p t edofs_hi k).
+Qed.
+Print Assumptions C17_postinit_keeps_coordinates.
+
+(* round trip of the second-order classes through to_meshio / from_meshio: what to_meshio writes is canonical (vertex
+   numbers 0..nv-1 first, the rows of t are the element's DOF numbers, all numbers occur) and on such input the
+   reordering of __post_init__ is the identity: same t, same doflocs *)
+Theorem C17_postinit_roundtrip :
+  forall (P : Type) (zero : P) (M ncols : nat) (p : list P) (t : C18_Surgery.mat nat) (nv : nat),
+    C17_HighOrder.hi_uniq M t = seq 0 nv -> length p = S (list_max (concat t)) -> nv <= length p ->
+    Forall (fun k => nv <= k) (C17_HighOrder.flattenF ncols (skipn M t)) ->
+    (forall i, nv <= i < length p -> In i (C17_HighOrder.flattenF ncols (skipn M t))) ->
+    C17GenHO.gen_hi_t M t = firstn M t /\ C17GenHO.gen_hi_doflocs zero M ncols p t (skipn M t) = p.
+Proof.
+  intros P zero M ncols p t nv Hu Hl Hnv Hhi Hcov.
+  exact (C17_HighOrderProofs.postinit_identity zero M ncols p t (skipn M t) nv Hu eq_refl Hl Hnv Hhi Hcov).
+Qed.
+Print Assumptions C17_postinit_roundtrip.
+
+(* node tables of the second-order cell types (finite, enumerated on the regenerated element DOF locations): local DOF k
+   of the element of MeshTri2 / MeshQuad2 / MeshTet2 sits at node k of triangle6 / quad9 / tetra10; for MeshHex2 (and the
+   first 8 rows for MeshHex1) the rows permuted by HEX_MAPPING are the hexahedron27 nodes up to the cube symmetry
+   x -> 1 - x.  Reference: the VTK node numbering written out in Model.C17_HighOrder (coordinates doubled). *)
+Theorem C17_second_order_node_order :
+  C17GenHO.gen_doflocs2_triangle6 = C17_HighOrder.vtk_triangle6 /\
+  C17GenHO.gen_doflocs2_quad9 = C17_HighOrder.vtk_quad9 /\
+  C17GenHO.gen_doflocs2_tetra10 = C17_HighOrder.vtk_tetra10 /\
+  C18_Surgery.gather [] C17GenHO.gen_doflocs2_hexahedron27 C17GenHO.gen_hex_mapping
+  = map C17_HighOrder.reflect2 C17_HighOrder.vtk_hexahedron27 /\
+  C17GenHO.gen_hex_mapping = HEX_MAPPING.
+Proof.
+  destruct C17_TieHO.second_order_node_tables as [H1 [H2 [H3 [H4 _]]]].
+  split; [exact H1|]. split; [exact H2|]. split; [exact H3|]. split; [exact H4 | vm_compute; reflexivity].
+Qed.
+Print Assumptions C17_second_order_node_order.
+
 Import String.   (* string literals; after everything that uses List.length *)
-(* cell-data key scheme: the keys written by _encode_cell_data are parsed by name.split(':') into the marker, the
-   kind and the tag name, for every tag name without ':' *)
+(* cell-data key scheme: the keys written by _encode_cell_data are parsed by name.split(':', 2) into the marker, the
+   kind and the tag name, for EVERY tag name (also one that contains ':') *)
 Theorem C17_key_scheme_roundtrip :
-  forall (name : String.string), has_char colon name = false ->
-    parse_key (String.append gen_key_subdomain name) = ("skfem"%string, "s"%string, name) /\
-    parse_key (String.append gen_key_boundary name) = ("skfem"%string, "b"%string, name).
-Proof. exact key_scheme_roundtrip. Qed.
+  forall (name : String.string),
+    gen_parse_key (String.append gen_key_subdomain name) = ("skfem"%string, "s"%string, name) /\
+    gen_parse_key (String.append gen_key_boundary name) = ("skfem"%string, "b"%string, name).
+Proof. rewrite gen_parse_key_is_model. exact key_scheme_roundtrip_all. Qed.
 Print Assumptions C17_key_scheme_roundtrip.
 
 
